@@ -119,6 +119,9 @@ class World(DuoWorld):
         resp = fwamp.ApplicationSession(ComponentConfig(realm="realm1"))
         orig.set_payload_codec(ring_o)
         resp.set_payload_codec(ring_r)
+        # the responder forwards tracebacks of failing endpoints (part of the error's payload: never in clear either)
+        cfg["traceback"] = False if flip else ch.flag("traceback_app", 0.3)
+        resp.traceback_app = cfg["traceback"]
         self.o = self.add_side("orig", orig, cfg["ser_o"])
         self.r = self.add_side("resp", resp, cfg["ser_r"])
         self.join_all()
@@ -166,6 +169,9 @@ class World(DuoWorld):
                 for i in range(op.progressive):
                     details.progress("PROG%d-%s" % (i, op.tok), n=i)
                     self.run.probe("progressive-result-sent")
+            if op is not None and op.reply == "error-bare":
+                # an exception without arguments (a failed assert, a bare ApplicationError)
+                raise ApplicationError("com.secret.error" if proc.startswith("com.secret") else "com.public.error")
             if op is not None and op.reply == "error":
                 raise ApplicationError("com.secret.error" if proc.startswith("com.secret") else "com.public.error", "ERR-" + op.tok, why="W-" + op.tok)
             return "RES-" + (op.tok if op else "?")
@@ -283,6 +289,8 @@ class World(DuoWorld):
         secret = True if flip else ch.flag("secret-uri", 0.7)
         op.uri = (self.topics if op.kind == "publish" else self.procs)[0 if secret else 1]
         op.reply = "error" if (direction == "error" or (not flip and op.kind == "call" and ch.flag("endpoint-raises", 0.35))) else "ok"
+        if op.reply == "error" and not flip and ch.flag("exception-without-arguments", 0.3):
+            op.reply = "error-bare"
         op.args = [op.tok, 42]
         op.kwargs = {"k": "KW-" + op.tok}
         op.tamper = {}
@@ -383,7 +391,7 @@ class World(DuoWorld):
                 return
             op.callee_error = msg.error
             enc_name = self.resolve_in(op.resp_model, msg.error)
-            if op.reply == "error" and not getattr(op, "expect_enc_error", False) and not op.tamper.get("invocation"):
+            if op.reply.startswith("error") and not getattr(op, "expect_enc_error", False) and not op.tamper.get("invocation"):
                 self.wire_check(side, msg, op, enc_name)
             err = M.Error(48, op.call_id, msg.error, args=msg.args, kwargs=msg.kwargs, payload=msg.payload, enc_algo=msg.enc_algo,
                           enc_key=msg.enc_key, enc_serializer=msg.enc_serializer)
@@ -544,7 +552,12 @@ class World(DuoWorld):
             else:
                 x = st[1] if st[0] == "err" else None
                 want_uri = "com.secret.error" if op.uri.startswith("com.secret") else "com.public.error"
-                if not isinstance(x, ApplicationError) or x.error != want_uri or tuple(jsonish(list(x.args))) != ("ERR-" + op.tok,) or jsonish(x.kwargs) != {"why": "W-" + op.tok}:
+                want_args, want_kw = (("ERR-" + op.tok,), {"why": "W-" + op.tok}) if op.reply == "error" else ((), {})
+                got_kw = dict(jsonish(x.kwargs)) if isinstance(x, ApplicationError) else {}
+                tb = got_kw.pop("traceback", None)
+                if isinstance(x, ApplicationError) and (tb is not None) != bool(self.cfg["traceback"]):
+                    run.violate("C20.exact-or-nothing", "traceback-%s" % ("missing" if tb is None else "although-off"), op.tok)
+                if not isinstance(x, ApplicationError) or x.error != want_uri or tuple(jsonish(list(x.args))) != want_args or got_kw != want_kw:
                     run.violate("C20.exact-or-nothing", "error-differs", repr(st)[:200])
                 else:
                     run.probe("error-recovered")
